@@ -4,7 +4,8 @@ from common import Failure
 from props._base import *  # noqa
 from refids import ref_decode, ref_compact_set, is_antichain, ref_res, MAXV, ref_id, ref_children_set
 
-LEAN_MODULES = ['A5.Props.C09']
+LEAN_MODULES = ['A5.Props.C09', 'A5.Props.SrcTie.Compact']
+SRC_TIE = True
 LEVEL = 'proof'
 EXPLANATION = ('Lean theorems for EVERY antichain of valid ids (duplicates, mixed resolutions, any order): output Nodup, antichain, same coverage, no complete sibling group (Reduced), '
                'canonical (two antichains with equal coverage compact to the same set — uniqueness of the reduced antichain, proved with a laminar family of finest-level index spans), '
